@@ -190,14 +190,15 @@ func (m *Manager) ClearPeer(peerID core.PeerID) {
 	delete(m.requestsByPeer, peerID)
 
 	for i, rs := range m.requests {
-		for j, r := range rs {
-			if r.PeerID == peerID {
-				// Eject request.
-				rs[j] = rs[len(rs)-1]
-				m.requests[i] = rs[:len(rs)-1]
-				break
+		// Eject every request of the peer: a piece may hold several of them,
+		// e.g. an expired request and its retry to the same peer.
+		kept := rs[:0]
+		for _, r := range rs {
+			if r.PeerID != peerID {
+				kept = append(kept, r)
 			}
 		}
+		m.requests[i] = kept
 	}
 }
 
